@@ -349,11 +349,26 @@ protected:
     last_freed = p;
   }
 
-  // mask-based, like real plugins: two addresses outside every sandbox may be "same"
+#ifndef VM_EXACT_SAME_SANDBOX
+  // mask-based, like real plugins: two addresses are "in the same sandbox" when they lie in
+  // the same aligned 2^RegionBits block (imprecise for application memory)
   static inline bool impl_is_in_same_sandbox(const void* p1, const void* p2)
   {
     return (reinterpret_cast<uintptr_t>(p1) & ~RegionMask) == (reinterpret_cast<uintptr_t>(p2) & ~RegionMask);
   }
+#else
+  // exact variant (three-argument form, walks the live-sandbox list): both addresses inside
+  // the same live sandbox, or both outside every sandbox
+  static inline bool impl_is_in_same_sandbox(const void* p1,
+                                             const void* p2,
+                                             Self* (*expensive_sandbox_finder)(const void* example_unsandboxed_ptr))
+  {
+    if (p1 == nullptr || p2 == nullptr) {
+      return p1 == p2;
+    }
+    return expensive_sandbox_finder(p1) == expensive_sandbox_finder(p2);
+  }
+#endif
 
   inline bool impl_is_pointer_in_sandbox_memory(const void* p)
   {
